@@ -212,3 +212,61 @@ reg(Prop("C17", ["Properties_C17"], [
     Stream("shared", "shared", histgen.shared_cases, flavours=("tsan",), nontrivial=lambda c, l: True, timeout=900,
            rule="2..16 concurrent readers (size, serialize, every getter) of one shared fully built tree under ThreadSanitizer"),
 ], level_note="partial: no executable Gallina model exhibits hardware interleavings or the allocator's own thread-safety (assumed); proved: no hidden mutable global state (AST inventory) and the frame property of read-only traversals; schedules are explored by TSan runs"))
+
+def container_hist_cases(ctx):
+    """container-focused histories: capacities 0..8, indices 0..size+2, long insertion runs for the growth clause"""
+    rng = ctx.rng
+    out = []
+    # exhaustive short sequences over one array with a tiny pool
+    import itertools
+    ops_pool = ["push 1 0", "get 1 0", "get 1 1", "get 1 2", "set 1 0 0", "set 1 1 0", "set 1 3 0", "repl 1 0 0", "repl 1 2 0", "push 1 2"]
+    maxlen = 3 if ctx.tier == "quick" else 4
+    for cap in range(0, 4):
+        for kind in ("nda %d" % cap, "nia"):
+            for n in range(1, maxlen + 1):
+                for seq in itertools.product(ops_pool, repeat=n):
+                    if rng.random() > (0.25 if ctx.tier == "quick" else 1.0) and n == maxlen:
+                        continue
+                    # handles: 0 = int item, 1 = array, 2 = second item; results of get are new handles (released at the end)
+                    ops = ["bi 0 8 7", kind, "bs 0 6162"] + list(seq)
+                    out.append(close_history(ops))
+    # maps and chunked strings
+    for cap in range(0, 4):
+        for kind in ("ndm %d" % cap, "nim"):
+            for n in range(0, 6):
+                ops = ["bi 0 8 1", kind, "bs 1 61"] + ["madd 1 0 2"] * n
+                out.append(close_history(ops))
+    for t in (0, 1):
+        for n in range(0, 10):
+            out.append(close_history(["bs %d 6162" % t, "nis %d" % t] + ["chunk 1 0"] * n))
+    # growth: thousands of insertions
+    for n in ((40, 130, 1100) if ctx.tier == "quick" else (40, 130, 1100, 2049, 4100)):
+        out.append(close_history(["bi 0 8 1", "nia"] + ["push 1 0"] * n, probe_every=max(1, n // 12)))
+        out.append(close_history(["bi 0 8 1", "nim", "bc 20"] + ["madd 1 0 2"] * (n // 2), probe_every=max(1, n // 12)))
+    return out
+
+def close_history(ops, probe_every=1):
+    """append the releases that make the history rule-following and attach probes"""
+    own = []
+    text = []
+    for i, o in enumerate(ops):
+        w = o.split()
+        if w[0] in ("bi", "bf", "bc", "bs", "nis", "nda", "nia", "ndm", "nim", "nt", "bt", "get", "titem", "copy"):
+            own.append(1)
+        live = [h for h in range(len(own)) if own[h] > 0]
+        # handles returned by get may be NULL: probing a NULL handle prints NULL on both sides
+        text.append(o + (" ? " + " ".join(map(str, live)) if (i % probe_every == 0 or i == len(ops) - 1) else ""))
+    for h in range(len(own)):
+        text.append("dec %d" % h)      # skipped on both sides when the handle is NULL
+    return "; ".join(text)
+
+reg(Prop("C12", ["Properties_C12"], [
+    Stream("containers", "hist", container_hist_cases, args=(LDEF, CAP, "none", 0), flavours=("rel", "dbg"), nontrivial=lambda c, l: True, timeout=900,
+           rule="operation sequences on every container kind: capacities 0..3 (definite) and indefinite, indices 0..size+2, exhaustive sequences of push/get/set/replace up to length 3 (4 thorough) over a pool of items, map adds and chunk adds 0..9, and runs of up to 1100 (4100 thorough) insertions for the growth clause; compared per step with the model (return value, size/capacity, refcounts) and on the complete allocator trace, which counts and sizes every realloc"),
+    hist_stream("hist", flavours=("rel",)),
+], level_note="Per-operation refinement lemmas over model H (HCont_proofs.v) for arbitrary allocator oracles; the in-range replace that releases the last reference of the old element is covered by the C04 release theorem + the hist stream, not by a container lemma"))
+
+reg(Prop("C06", ["Properties_C06"], [
+    Stream("fault", "fault", histgen.fault_cases, args=(LDEF, CAP), flavours=("rel", "dbg"), nontrivial=lambda c, l: " only" in l, timeout=1200,
+           rule="for each scenario history (every builder, push / map add / add chunk at growth steps, copy, load, serialize_alloc, tags) the harness counts the N allocator requests of a fault-free run, then re-runs it 2N times refusing request k only / every request from k on (k = 0..N-1): per step the documented failure value, the refcount and size/capacity of every handle the client holds, at the end the live-block count and the whole allocator trace, all compared with the model under the same oracle; non-trivial = N >= 1"),
+], level_note="partial: clean, atomic failure is proved for every constructor and for container growth (arbitrary oracle); for cbor_copy, cbor_load and cbor_serialize_alloc it is tied by the exhaustive single-fault / fail-from-k enumeration of the fault stream and proved when HCopy_proofs / HLoad_proofs are present"))
